@@ -106,7 +106,8 @@ def handle (line : String) : String :=
       let cfg : Cfg := { respmod := m == "rs", bypass := b == "1", previewWanted := if p == "n" then none else p.toNat?,
                          allow206 := u == "1", hasBody := vk == "u" || (vk == "k" && vl > 0), sizeKnown := vk == "k" }
       let o := (outcome (simulate false false cfg vl pre at_ act al ch cut endk uob)).name
-      -- acting at `h` the stub has not read any body byte: squid may still be in the middle of a body write
+      -- acting at `h` (or at `p` when no preview was offered) the stub has not read any body byte: squid may still be in the middle of a body write
+      let at_ := if at_ == "p" && p == "n" then "h" else at_
       let o2 := if at_ == "h" then (outcome (simulate true false cfg vl pre at_ act al ch cut endk uob)).name else o
       -- ... and a reset may hit that write instead of the read
       let o3 := if at_ == "h" && (act == "r" || endk == "r") then (outcome (simulate true true cfg vl pre at_ act al ch cut endk uob)).name else o
